@@ -6,7 +6,7 @@
    operations make (strace), and the crash states by killing the real process at every file-system call. *)
 From Coq Require Import NArith Bool List.
 Import ListNotations.
-From XetModel Require Import Base.Codec Gen.CrashFacts Model.Merkle Model.Shard Model.Crash Proofs.CrashProofs.
+From XetModel Require Import Base.Codec Gen.CrashFacts Model.Merkle Model.Shard Model.Crash Proofs.CrashProofs Proofs.CrashHistoryProofs.
 Open Scope N_scope.
 
 (* after any prefix of the effects of a safe plan, every file under a final name is complete and consistent with its
@@ -58,6 +58,21 @@ Example C19_nonvacuous :
   apply_effs f (firstn 4 (plan_effs pl)) = [([77], [1; 2]); ([66], [2])].
 Proof. vm_compute. reflexivity. Qed.
 
+
+(* "after any prior history": a history is a sequence of operations, each with the number of its file-system effects that
+   happened before the process stopped (all of them when it completed).  When every operation's plan is safe for the state it
+   starts in -- the state an interrupted earlier operation left behind included, e.g. a consolidation run again after a crash --
+   the directory is consistent after the whole history and everything retrievable at its start still is *)
+Theorem C19_any_history_of_interrupted_operations : forall (R : Type) final (good : fname -> list N -> Prop) (recs : list N -> R -> Prop) h f,
+  Consistent final good f -> SafeHistory R final good recs f h ->
+  Consistent final good (run_history f h) /\ Keeps R final recs f (run_history f h).
+Proof. exact history_safe. Qed.
+(* a consolidation interrupted after its first unlink, run again and interrupted before the rename, run a third time to its end *)
+Example C19_history_nonvacuous :
+  SafeHistory N hx_final hx_good hx_recs hx_f0 hx_hist /\ run_history hx_f0 hx_hist = [([77], [1; 2]); ([46; 117], [1; 2])].
+Proof. exact history_example. Qed.
+
 Print Assumptions C19_crash_at_any_point.
 Print Assumptions C19_group_write_before_delete.
 Print Assumptions C19_consolidation_plan_structure.
+Print Assumptions C19_any_history_of_interrupted_operations.
